@@ -313,6 +313,15 @@ fn parse_at_rule(
                             let close = ss.append_nested_block(st, input);
                             close_stack.push(close);
                         }
+                        Token::Ident(x) if x.eq_ignore_ascii_case("layer") && close_stack.is_empty() => {
+                            // the `layer` keyword (an anonymous layer), which is not a media type
+                            input.next().ok();
+                            let st = StepToken::wrap(Token::AtKeyword("layer".into()), peek.position);
+                            ss.append_token(st, input, Some(peek.token.clone()));
+                            let st = StepToken::wrap(Token::CurlyBracketBlock, peek.position);
+                            let close = ss.append_nested_block(st, input);
+                            close_stack.push(close);
+                        }
                         Token::Ident(_) | Token::ParenthesisBlock => {
                             has_media = true;
                             break;
